@@ -239,6 +239,92 @@ func checkC36(c *Ctx, r *Report) {
 			r.unresolved("C36.R2", "filterSegments loop", "range loop with one append not found")
 		} else {
 			nSkip := 0
+			fam := fnFamily(m, fs)
+			inFam := func(f *ssa.Function) bool {
+				for _, x := range fam {
+					if x == f {
+						return true
+					}
+				}
+				return false
+			}
+			// classify one skip literal; a negated call of a predicate helper that filterSegments owns is
+			// opened up: inside it, every edge that leads to `return false` is a skip test of its own and
+			// every other return hands back true or the verdict of one of the two segment predicates
+			var classify func(fn *ssa.Function, ifi *ssa.If, l Lit, depth int)
+			judgeHelper := func(h *ssa.Function, depth int) {
+				for _, hb := range h.Blocks {
+					if ret, ok := hb.Instrs[len(hb.Instrs)-1].(*ssa.Return); ok {
+						v := strip(ret.Results[0])
+						if c, isC := v.(*ssa.Const); isC {
+							if c.Value != nil && c.Value.ExactString() == "false" {
+								// the tests that lead here
+								for _, pb := range hb.Preds {
+									pif, ok := pb.Instrs[len(pb.Instrs)-1].(*ssa.If)
+									if !ok {
+										nSkip++
+										r.viol("C36.R2", fmt.Sprintf("filterSegments: skip #%d is one of the four allowed tests", nSkip), m.Pos(ret.Pos()), "an unconditional `return false` in "+h.Name())
+										continue
+									}
+									for si := range pb.Succs {
+										if followJumps(pb.Succs[si]) == hb || pb.Succs[si] == hb {
+											classify(h, pif, litOf(pif.Cond, si == 0), depth+1)
+										}
+									}
+								}
+							}
+							continue
+						}
+						nSkip++
+						key := fmt.Sprintf("filterSegments: skip #%d is one of the four allowed tests", nSkip)
+						if cc, ok := v.(*ssa.Call); ok {
+							n := calleeName(&cc.Call)
+							if n == pkgSQLServer+".segmentMatchesOffsets" || n == pkgSQLServer+".segmentMatchesTimestamps" {
+								r.ok("C36.R2", key, m.Pos(ret.Pos()), "verdict of "+n[strings.LastIndex(n, ".")+1:])
+								continue
+							}
+						}
+						r.viol("C36.R2", key, m.Pos(ret.Pos()), h.Name()+" decides on "+describe(v))
+					}
+				}
+			}
+			classify = func(fn *ssa.Function, ifi *ssa.If, l Lit, depth int) {
+				okS := false
+				desc := l.String()
+				if l.Op == token.NEQ {
+					_, f1, _, ok1 := fieldOf(l.X)
+					_, f2, _, ok2 := fieldOf(l.Y)
+					if ok1 && ok2 && f1 == f2 && f1 == "Topic" {
+						okS = true
+					}
+					if ok1 && f1 == "Partition" {
+						if f, okd := derefOfField(l.Y); okd && f == "Partition" {
+							okS = true
+						}
+					}
+				}
+				if l.Op == token.ILLEGAL && l.Neg {
+					if cc, ok := strip(l.X).(*ssa.Call); ok {
+						n := calleeName(&cc.Call)
+						if n == pkgSQLServer+".segmentMatchesOffsets" || n == pkgSQLServer+".segmentMatchesTimestamps" {
+							okS = true
+						} else if h, _ := calleeOf(&cc.Call); h != nil && h != fs && inFam(h) && depth < 3 {
+							judgeHelper(h, depth)
+							return
+						}
+					}
+				}
+				nSkip++
+				key := fmt.Sprintf("filterSegments: skip #%d is one of the four allowed tests", nSkip)
+				if okS {
+					r.ok("C36.R2", key, ifPos(m, ifi), desc)
+				} else {
+					r.viol("C36.R2", key, ifPos(m, ifi), "a segment is dropped on "+desc)
+				}
+			}
+			// in filterSegments: an edge back to the loop header that skips the append; with the
+			// append inside an `if keep { … }`, the false edge of that test is the skip
+			app := appends[0].Call
 			for _, b := range fs.Blocks {
 				ifi, ok := b.Instrs[len(b.Instrs)-1].(*ssa.If)
 				if !ok || b == header {
@@ -248,55 +334,50 @@ func checkC36(c *Ctx, r *Report) {
 					if followJumps(b.Succs[si]) != header {
 						continue
 					}
-					nSkip++
-					l := litOf(ifi.Cond, si == 0)
-					okS := false
-					desc := l.String()
-					if l.Op == token.NEQ {
-						_, f1, _, ok1 := fieldOf(l.X)
-						_, f2, _, ok2 := fieldOf(l.Y)
-						if ok1 && ok2 && f1 == f2 && f1 == "Topic" {
-							okS = true
-						}
-						if ok1 && f1 == "Partition" {
-							if f, okd := derefOfField(l.Y); okd && f == "Partition" {
-								okS = true
+					// does this edge really avoid the append?
+					if b.Succs[si] == app.Block() {
+						continue
+					}
+					classify(fs, ifi, litOf(ifi.Cond, si == 0), 0)
+				}
+			}
+			// predicates receive the query's own bounds (arguments are resolved through an owned helper's
+			// parameters to what filterSegments passes)
+			resolve := func(fn *ssa.Function, v ssa.Value) ssa.Value {
+				v = strip(v)
+				p, ok := v.(*ssa.Parameter)
+				if !ok || fn == fs {
+					return v
+				}
+				for i, q := range fn.Params {
+					if q == p {
+						for _, cs := range callersOf(m, funcName(fn)) {
+							if cs.caller == fs && i < len(cs.in.Common().Args) {
+								return strip(cs.in.Common().Args[i])
 							}
 						}
 					}
-					if l.Op == token.ILLEGAL && l.Neg {
-						if cc, ok := strip(l.X).(*ssa.Call); ok {
-							n := calleeName(&cc.Call)
-							if n == pkgSQLServer+".segmentMatchesOffsets" || n == pkgSQLServer+".segmentMatchesTimestamps" {
-								okS = true
-							}
-						}
-					}
-					key := fmt.Sprintf("filterSegments: skip #%d is one of the four allowed tests", nSkip)
-					if okS {
-						r.ok("C36.R2", key, ifPos(m, ifi), desc)
+				}
+				return v
+			}
+			for _, f := range fam {
+				for _, call := range findCalls(f, pkgSQLServer+".segmentMatchesOffsets") {
+					a := call.Common().Args
+					_, f1, _, ok1 := fieldOf(a[1])
+					_, f2, _, ok2 := fieldOf(a[2])
+					if ok1 && ok2 && f1 == "OffsetMin" && f2 == "OffsetMax" {
+						r.ok("C36.R2", "filterSegments: offset predicate gets (OffsetMin, OffsetMax)", m.Pos(call.Pos()), "")
 					} else {
-						r.viol("C36.R2", key, ifPos(m, ifi), "a segment is dropped on "+desc)
+						r.viol("C36.R2", "filterSegments: offset predicate gets (OffsetMin, OffsetMax)", m.Pos(call.Pos()), describe(a[1])+", "+describe(a[2]))
 					}
 				}
-			}
-			// predicates receive the query's own bounds
-			for _, call := range findCalls(fs, pkgSQLServer+".segmentMatchesOffsets") {
-				a := call.Common().Args
-				_, f1, _, ok1 := fieldOf(a[1])
-				_, f2, _, ok2 := fieldOf(a[2])
-				if ok1 && ok2 && f1 == "OffsetMin" && f2 == "OffsetMax" {
-					r.ok("C36.R2", "filterSegments: offset predicate gets (OffsetMin, OffsetMax)", m.Pos(call.Pos()), "")
-				} else {
-					r.viol("C36.R2", "filterSegments: offset predicate gets (OffsetMin, OffsetMax)", m.Pos(call.Pos()), describe(a[1])+", "+describe(a[2]))
-				}
-			}
-			for _, call := range findCalls(fs, pkgSQLServer+".segmentMatchesTimestamps") {
-				a := call.Common().Args
-				if strip(a[1]) == ssa.Value(fs.Params[2]) && strip(a[2]) == ssa.Value(fs.Params[3]) {
-					r.ok("C36.R2", "filterSegments: time predicate gets (timeMin, timeMax)", m.Pos(call.Pos()), "")
-				} else {
-					r.viol("C36.R2", "filterSegments: time predicate gets (timeMin, timeMax)", m.Pos(call.Pos()), describe(a[1])+", "+describe(a[2]))
+				for _, call := range findCalls(f, pkgSQLServer+".segmentMatchesTimestamps") {
+					a := call.Common().Args
+					if resolve(f, a[1]) == ssa.Value(fs.Params[2]) && resolve(f, a[2]) == ssa.Value(fs.Params[3]) {
+						r.ok("C36.R2", "filterSegments: time predicate gets (timeMin, timeMax)", m.Pos(call.Pos()), "")
+					} else {
+						r.viol("C36.R2", "filterSegments: time predicate gets (timeMin, timeMax)", m.Pos(call.Pos()), describe(a[1])+", "+describe(a[2]))
+					}
 				}
 			}
 		}
